@@ -1073,7 +1073,9 @@ class Machine:
                 pv = [i for i, n in enumerate(self.order) if n in p.variables]
                 proj = {tuple(m[i] for i in pv) for m in h.ref.M}
                 M = [m for m in self.ref0().universe if tuple(m[i] for i in pv) in proj]
-                nh = Handle(p, self.ref0().with_models(M), type(p).__name__, h.kw, list(h.lineage), h.mode, "split")
+                # the parts of a hybrid are HybridFrontend objects: for the oracle's choice of mode they are hybrids
+                pcls = "SolverHybrid" if h.cls == "SolverHybrid" else type(p).__name__
+                nh = Handle(p, self.ref0().with_models(M), pcls, h.kw, list(h.lineage), h.mode, "split")
                 self.handles.append(nh)
                 out.append(len(self.handles) - 1)
                 # probe the part right away with assignments of its own variables: members and non-members
